@@ -48,11 +48,17 @@ def is_short_date_spec(short_date: str) -> bool:
 
 def is_long_date_spec(long_date: str) -> bool:
     """Returns True iff {long_date} is a valid long date."""
-    return (
+    if not (
         len(long_date) == 10
         and {long_date[4], long_date[7]} == {"-"}
         and all(ch.isdigit() for ch in long_date.replace("-", ""))
-    )
+    ):
+        return False
+    try:
+        _from_long_date_spec(long_date)
+    except ValueError:
+        return False
+    return True
 
 
 def is_zid(zid: str) -> bool:
